@@ -1412,7 +1412,9 @@ func (s *Store) commitIDTxn() error {
 		// datasets assert new ids in the id txn of the store they belong to, not in this copy
 		return s.parent.commitIDTxn()
 	}
+	verifhook.Acquire(s.database, "store.idmux", s)
 	s.idmux.Lock()
+	defer verifhook.Release(s.database, "store.idmux", s)
 	defer s.idmux.Unlock()
 
 	if s.idtxn == nil {
@@ -1420,6 +1422,7 @@ func (s *Store) commitIDTxn() error {
 		return nil
 	}
 
+	verifhook.Point(s.database, "commitIDTxn.beforeCommit")
 	err := s.idtxn.Commit()
 	if err != nil {
 		return err
@@ -1470,7 +1473,9 @@ func (s *Store) assertIDForURI(uri string, localTxnCache map[string]uint64) (uin
 	}
 
 	// add lock
+	verifhook.Acquire(s.database, "store.idmux", s)
 	s.idmux.Lock()
+	defer verifhook.Release(s.database, "store.idmux", s)
 	defer s.idmux.Unlock()
 
 	if s.idtxn == nil {
